@@ -277,9 +277,17 @@ def keep_condition(calls):
         if mp:
             mapped = mp[0]["args"][0]["body"]
             mfp = pat_ident(mp[0]["args"][0]["params"][0])
-            if mfp and fp and mfp != fp:
-                from .canon import subst
+            from .canon import subst
 
+            if calls.index(mp[0]) < calls.index(fl[0]) if (mp[0] in calls and fl[0] in calls) else False:
+                # `.map(|f| e(f)).filter(|v| C(v))`: the filter sees the mapped value; as a selection of fields it is C(e(f))
+                if mfp and fp:
+                    mb = mapped
+                    while mb["k"] == "block" and len(mb["stmts"]) == 1 and mb["stmts"][0]["k"] == "expr":
+                        mb = mb["stmts"][0]["e"]
+                    body = subst(body, {fp: mb})
+                    fp = mfp
+            elif mfp and fp and mfp != fp:
                 mapped = subst(mapped, {mfp: {"k": "path", "p": fp, "segs": [fp], "l": 0}})
         return fp, body, True, mapped
     return None
@@ -1081,16 +1089,109 @@ def b3(rep, src, rid="B3"):
     rep.rule(
         rid,
         "relation/builder.rs: every function that takes a Map apart (`let Map {name, projection, filter, order_by, limit, offset, ..} = map`) to rebuild it re-applies each of the clauses "
-        "filter / order_by / limit / offset unconditionally: `<clause>.into_iter().fold(builder, |b, v| b.<clause>(..v..))` with nothing between `into_iter()` and `fold`, or (filter_with) "
-        "the old filter conjoined with the new predicate and handed to `.filter(..)`",
+        "filter / order_by / limit / offset unconditionally: `<clause>.into_iter().fold(builder, |b, v| b.<clause>(..v..))` with nothing between `into_iter()` and `fold` (directly, or in a private "
+        "helper of the file the clause is handed to as an argument), or (filter_with) the old filter conjoined with the new predicate and handed to `.filter(..)`",
         floor=16,
         necessary="tau_thresholding_values ends with filter_columns(count > tau) followed by filter_fields(..), which rebuilds the Map through filter_fields_with: a re-builder that drops or conditions the "
         "filter releases every key; the same re-builders carry the WHERE / ORDER BY / LIMIT of user queries through the rewritings",
     )
     CL = ("filter", "order_by", "limit", "offset")
+    BF = "relation/builder.rs"
+
+    def chains_on(stmts, var):
+        uses = []
+        for st in stmts:
+            for x in walk(st):
+                if x["k"] == "mcall":
+                    r, chain = x, []
+                    while r["k"] == "mcall":
+                        chain.insert(0, r)
+                        r = r["recv"]
+                    if path_of(r) == var and chain:
+                        uses.append(chain)
+        return [c for c in uses if not any(len(o) > len(c) and o[: len(c)] == c for o in uses)]
+
+    def reapplied(stmts, var, cl, depth=0):
+        """-> (ok, how, uses)"""
+        best = chains_on(stmts, var)
+        for c in best:
+            ms = [m["m"] for m in c]
+            if ms in (["into_iter", "fold"], ["iter", "fold"]) and len(c[-1]["args"]) == 2 and c[-1]["args"][1]["k"] == "closure":
+                clo = c[-1]["args"][1]
+                b = clo["body"]
+                while b["k"] == "block" and len(b["stmts"]) == 1 and b["stmts"][0]["k"] == "expr":
+                    b = b["stmts"][0]["e"]
+                ps = clo["params"]
+                elem = set(pat_binds(ps[1])) if len(ps) == 2 else set()  # `|b, o|` or a destructuring `|b, OrderBy { expr, asc }|`
+                if b["k"] == "mcall" and b["m"] == cl and len(ps) == 2 and path_of(b["recv"]) == ps[0].get("name") and any(y["k"] == "path" and y["segs"][0] in elem for a in b["args"] for y in walk(a)):
+                    return True, "into_iter().fold", best
+        # statement forms on a mutable builder: `if let Some(v) = X { b = b.X(v) }` (no else, or an else that leaves b alone) / `for v in X { b = b.X(..v..) }`
+        for st in stmts:
+            for x in walk(st):
+                if x["k"] == "if" and x["cond"]["k"] == "letcond" and path_of(x["cond"]["e"]) == var and x["cond"]["pat"]["k"] == "tuplestruct" and x["cond"]["pat"]["path"]["segs"][-1] == "Some":
+                    vs = list(pat_binds(x["cond"]["pat"]))
+                    calls = [m for m in find(x["then"], "mcall") if m["m"] == cl and any(y["k"] == "path" and y["segs"][0] in vs for a in m["args"] for y in walk(a))]
+                    other = x.get("else")
+                    if calls and (other is None or not list(find(other, "mcall"))):
+                        return True, "if let Some(v) = clause { b = b.clause(v) }", best
+                if x["k"] == "for" and var in {y["segs"][0] for y in walk(x["e"]) if y["k"] == "path"} and not [m for m in find(x["e"], "mcall") if m["m"] not in ("into_iter", "iter")]:
+                    vs = list(pat_binds(x["pat"]))
+                    if [m for m in find(x["body"], "mcall") if m["m"] == cl and any(y["k"] == "path" and y["segs"][0] in vs for a in m["args"] for y in walk(a))]:
+                        return True, "for v in clause { b = b.clause(v) }", best
+                if x["k"] == "match" and path_of(x["e"]) == var and len(x["arms"]) == 2:
+                    some = [a for a in x["arms"] if a["pat"]["k"] == "tuplestruct" and a["pat"]["path"]["segs"][-1] == "Some"]
+                    none = [a for a in x["arms"] if a not in some]
+                    if len(some) == 1 and not some[0].get("guard") and not list(find(none[0]["body"], "mcall")):
+                        vs = list(pat_binds(some[0]["pat"]))
+                        if [m for m in find(some[0]["body"], "mcall") if m["m"] == cl and any(y["k"] == "path" and y["segs"][0] in vs for a in m["args"] for y in walk(a))]:
+                            return True, "match clause { Some(v) => b.clause(v), None => b }", best
+        if cl == "filter":
+            # filter_with: `let filter = if let Some(x) = filter { Expr::and(x, predicate) } else { predicate }` (or the same `match`); the conjunction then
+            # reaches `.filter(..)` directly or through a helper
+            for st in stmts:
+                if st["k"] == "let" and st["pat"]["k"] == "ident" and st.get("init") is not None and st["init"]["k"] in ("if", "match"):
+                    e = st["init"]
+                    some_body = other_body = None
+                    if e["k"] == "if" and e["cond"]["k"] == "letcond" and path_of(e["cond"]["e"]) == var and e["cond"]["pat"]["k"] == "tuplestruct" and e["cond"]["pat"]["path"]["segs"][-1] == "Some" and e.get("else") is not None:
+                        vs, some_body, other_body = list(pat_binds(e["cond"]["pat"])), e["then"], e["else"]
+                    elif e["k"] == "match" and path_of(e["e"]) == var and len(e["arms"]) == 2:
+                        sm = [a for a in e["arms"] if a["pat"]["k"] == "tuplestruct" and a["pat"]["path"]["segs"][-1] == "Some" and not a.get("guard")]
+                        if len(sm) == 1:
+                            vs, some_body, other_body = list(pat_binds(sm[0]["pat"])), sm[0]["body"], [a for a in e["arms"] if a is not sm[0]][0]["body"]
+                    if some_body is None:
+                        continue
+                    conj = [c for c in find(some_body, "call") if (path_of(c["f"]) or "").endswith("Expr::and") and any(y["k"] == "path" and y["segs"][0] in vs for a in c["args"] for y in walk(a))]
+                    if not conj:
+                        continue
+                    nm = st["pat"]["name"]
+                    later = stmts[stmts.index(st) + 1 :] if st in stmts else stmts
+                    if any(x["k"] == "mcall" and x["m"] == "filter" and x["args"] and path_of(x["args"][0]) == nm for s2 in later for x in walk(s2)):
+                        return True, "conjoined with the new predicate", best
+                    ok2, how2, _ = reapplied(later, nm, cl, depth)
+                    if ok2:
+                        return True, "conjoined with the new predicate, then " + how2, best
+        if depth < 2:
+            # the clause is handed, as it is, to a private helper of the file: the helper's parameter must be re-applied
+            for st in stmts:
+                for x in walk(st):
+                    if x["k"] in ("mcall", "call"):
+                        nm = x["m"] if x["k"] == "mcall" else (path_of(x["f"]) or "").split("::")[-1]
+                        pos = [i for i, a in enumerate(x["args"]) if path_of(a) == var or (a["k"] == "call" and path_of(a["f"]) == "Some" and len(a["args"]) == 1 and path_of(a["args"][0]) == var)]
+                        if not pos or not nm:
+                            continue
+                        hs = [h for h in src.find_fns(name=nm, file=BF) if h.body and not h.test and h.vis != "pub"] if hasattr(src.fns[0], "vis") else [h for h in src.find_fns(name=nm, file=BF) if h.body and not h.test]
+                        if len(hs) != 1:
+                            continue
+                        hp = [p["pat"]["name"] for p in hs[0].params if not p.get("self") and p["pat"]["k"] == "ident"]
+                        if pos[0] < len(hp):
+                            ok, how, _ = reapplied(hs[0].body["stmts"], hp[pos[0]], cl, depth + 1)
+                            if ok:
+                                return True, "%s, in helper %s" % (how, hs[0].qual), best
+        return False, None, best
+
     n = 0
     for f in src.fns:
-        if f.test or not f.body or f.file != "relation/builder.rs":
+        if f.test or not f.body or f.file != BF:
             continue
         lets = [st for st in f.body["stmts"] if st["k"] == "let" and st["pat"]["k"] == "struct" and st["pat"]["path"]["segs"][-1] == "Map"]
         if not lets:
@@ -1109,41 +1210,7 @@ def b3(rep, src, rid="B3"):
                 rep.instance(rid, key, {"fn": f.qual, "clause": cl, "bound": False})
                 rep.violation(rid, key, "%s takes a Map apart without binding its `%s`: the clause is dropped from the rebuilt Map" % (f.qual, cl), f.where())
                 continue
-            var = bound[cl]
-            uses = []
-            for st in rest:
-                for x in walk(st):
-                    if x["k"] == "mcall":
-                        r = x
-                        chain = []
-                        while r["k"] == "mcall":
-                            chain.insert(0, r)
-                            r = r["recv"]
-                        if path_of(r) == var and chain and x is chain[-1]:
-                            uses.append(chain)
-            # keep maximal chains only (walk yields every prefix of a chain as its own mcall)
-            best = [c for c in uses if not any(len(o) > len(c) and o[: len(c)] == c for o in uses)]
-            ok, how = False, None
-            for c in best:
-                ms = [m["m"] for m in c]
-                if ms in (["into_iter", "fold"], ["iter", "fold"]) and len(c[-1]["args"]) == 2 and c[-1]["args"][1]["k"] == "closure":
-                    clo = c[-1]["args"][1]
-                    b = clo["body"]
-                    while b["k"] == "block" and len(b["stmts"]) == 1 and b["stmts"][0]["k"] == "expr":
-                        b = b["stmts"][0]["e"]
-                    ps = [pp.get("name") for pp in clo["params"]]
-                    if b["k"] == "mcall" and b["m"] == cl and len(ps) == 2 and path_of(b["recv"]) == ps[0] and any(y["k"] == "path" and y["segs"][0] == ps[1] for a in b["args"] for y in walk(a)):
-                        ok, how = True, "into_iter().fold"
-            if not ok and cl == "filter":
-                # filter_with: `let filter = if let Some(x) = filter { Expr::and(x, predicate) } else { predicate }; builder.filter(filter)`
-                for st in rest:
-                    if st["k"] == "let" and st["pat"]["k"] == "ident" and st.get("init") is not None and st["init"]["k"] in ("iflet", "if", "match"):
-                        e = st["init"]
-                        t = show(e, 0).replace(" ", "")
-                        if t.startswith("ifletSome(") and ("=%s{" % var) in t and "Expr::and(" in t and e.get("else") is not None:
-                            nm = st["pat"]["name"]
-                            if any(x["k"] == "mcall" and x["m"] == "filter" and x["args"] and path_of(x["args"][0]) == nm for s2 in rest for x in walk(s2)):
-                                ok, how = True, "conjoined with the new predicate"
+            ok, how, best = reapplied(rest, bound[cl], cl)
             rep.instance(rid, key, {"fn": f.qual, "clause": cl, "reapplied": how})
             if not ok:
                 rep.violation(
@@ -1154,6 +1221,7 @@ def b3(rep, src, rid="B3"):
                 )
     if not n:
         raise Anchor("relation/builder.rs: no function takes a Map apart")
+
 
 def b2(rep, src, rid="B2"):
     """MapBuilder / ReduceBuilder: a filter is only kept in an existing Map split, so projections come first."""
